@@ -424,8 +424,9 @@ func (r *runner) run(t *rt.Trace, c Cfg, parents [][]Msg, sched []Step, gated bo
 			rt.Fatalf("c12: collect batch: %v", err)
 		}
 	}
+	stepMu.RLock()
 	if gated {
-		failed = r.gatedSteps(t, c, tg, parents, sched, feedBatch, drain)
+		failed = r.gatedSteps(t, c, id, tg, parents, sched, feedBatch, drain)
 		sched = nil
 	}
 	for _, s := range sched {
@@ -461,14 +462,19 @@ func (r *runner) run(t *rt.Trace, c Cfg, parents [][]Msg, sched []Step, gated bo
 			feedBatch(s.Src, m)
 		}
 		delivered++
-		switch r.ts.wait(delivered, stepTimeout, r.nodeFailed) {
-		case "timeout":
-			rt.Fatalf("c12: %s node did not finish message %d of parent %d within %v (%s)", c.Kind, next[s.Src], s.Src, stepTimeout, c)
+		res, ev := r.awaitProcessed(delivered, c, id, node, fmt.Sprintf("message %d of parent %d", next[s.Src], s.Src))
+		switch res {
 		case "abort":
 			failed = true
+		case "dropped":
+			t.Event("Dropped", rt.M{"src": s.Src, "k": next[s.Src], "evidence": ev})
+			droppedTraces.Add(1)
+			failed = true
+			continue
 		}
 		t.Event("Deliver", rt.M{"src": s.Src, "k": next[s.Src], "out": drain()})
 	}
+	stepMu.RUnlock()
 	// end of input: close what is still open (schedule order first, then the rest) and stop
 	if c.Edge == "batch" {
 		for i, cl := range closed {
@@ -496,7 +502,7 @@ func (r *runner) run(t *rt.Trace, c Cfg, parents [][]Msg, sched []Step, gated bo
 }
 
 // gatedSteps executes a message-granularity schedule on a gated streamed batch task.  Returns failed.
-func (r *runner) gatedSteps(t *rt.Trace, c Cfg, tg *taskGate, parents [][]Msg, sched []Step,
+func (r *runner) gatedSteps(t *rt.Trace, c Cfg, id string, tg *taskGate, parents [][]Msg, sched []Step,
 	feed func(int, Msg), drain func() []any) bool {
 	fail := func(what string, res string) bool {
 		if res == "timeout" {
@@ -564,10 +570,13 @@ func (r *runner) gatedSteps(t *rt.Trace, c Cfg, tg *taskGate, parents [][]Msg, s
 			// the reader hands the reassembled batch to the node: wait until the node has finished it
 			delivered++
 			batch[s]++
-			switch r.ts.wait(delivered, stepTimeout, r.nodeFailed) {
-			case "timeout":
-				rt.Fatalf("c12: gated run: %s node did not finish batch %d of parent %d within %v (%s)", c.Kind, batch[s], s, stepTimeout, c)
+			res, ev := r.awaitProcessed(delivered, c, id, "", fmt.Sprintf("batch %d of parent %d", batch[s], s))
+			switch res {
 			case "abort":
+				return true
+			case "dropped":
+				t.Event("Dropped", rt.M{"src": s, "k": batch[s], "evidence": ev})
+				droppedTraces.Add(1)
 				return true
 			}
 			t.Event("Deliver", rt.M{"src": s, "k": batch[s], "out": drain()})
